@@ -494,16 +494,10 @@ def c09(tier, seed):
                             tier=tq, n=n, fam=fam, timeout=3000, mem=3, optional=(n >= 4),
                             covers={"reached": "SATISFIED", "letter digit": "SATISFIED" if n >= 2 else "UNSAT"},
                             what="to_hex_string on %s n=%d: length is exactly %d and the digit at a symbolic position is the MSB-first nibble" % (tname, n, w)))
-            if n <= 3:
-                out.append(spec("verif_c09", "c09.rs", "c09_roundtrip", "c09_roundtrip_%s" % fam, [fam, w], 70,
-                                tier="thorough", n=n, fam=fam, timeout=3000, mem=12, mem_limit_gb=40,
-                                optional=True,
-                                what="%s n=%d: from_hex_string(to_hex_string(f)) == Ok(f) for symbolic f" % (tname, n)))
-            if n <= 3:
-                out.append(spec("verif_c09", "c09.rs", "c09_print_bin", "c09_print_bin_%s" % fam, [fam, 1 << n], 70,
-                                tier="thorough", n=n, fam=fam, timeout=3000, mem=12, mem_limit_gb=40,
-                                optional=True,
-                                what="to_bin_string on %s n=%d: 2^n digits, digit at a symbolic position is the MSB-first bit" % (tname, n)))
+            # c09_roundtrip (parse(print(f)) == f) and c09_print_bin (to_bin_string) are written in c09.rs but not
+            # registered: measured out of memory at 40 GB / 20+ min even for n = 0 (`{:0width$b}` and the
+            # String -> &str -> from_str_radix chain on a symbolic string); the round trip follows from the
+            # parser oracle (c09_parse) and the printer oracle (c09_print_hex) at the sizes where both are decided
     return out
 
 
